@@ -9,7 +9,7 @@ import numpy
 from lib import common as C
 
 PROP = "C07"
-PROPS_FILES = ["Props/C07.v"]
+PROPS_FILES = ["Props/C07.v", "Props/C07_scipy.v"]
 ASSUMPTIONS = [
   "exact arithmetic over Q: starts, bounds, optimiser parameters and scripted draws are dyadic, the recorded acquisition function is an "
   "integer-coefficient quadratic (of the point snapped to a power-of-two grid when the run leaves the dyadics), so every value is exact",
@@ -490,12 +490,82 @@ def correspondence(ctx):
     obs = {k: v for k, v in out.items() if k != "rec"}
     dis.append(dict(what=f"C07 correspondence case {i} ({inp['kind']}): implementation differs from Model.Optim/Multistart or from the specification",
                     kind=inp["kind"], input=inp, observed=obs))
-  return dict(evaluations=len(cases), distinct_nontrivial=nontriv,
-              rule="DE / Adam / multistart runs on boxes of dim 1-4 with and without linear constraints and fixed coordinates, 1-6 multistarts, 0-5 "
+  sc = scipy_cons_correspondence(ctx)
+  dist.update(sc["distribution"])
+  dis += sc["disagreements"]
+  return dict(evaluations=len(cases) + sc["evaluations"], distinct_nontrivial=nontriv + sc["distinct"],
+              rule="SciPy constraint functions: fun and jac of every constraint of get_constraints_for_scipy() at a dyadic point, right-hand sides "
+                   "of both signs / zero / 1e-3 ... 1e6 (non-trivial = at least one constraint); "
+                   "DE / Adam / multistart runs on boxes of dim 1-4 with and without linear constraints and fixed coordinates, 1-6 multistarts, 0-5 "
                    "iterations, starts none / fewer / equal / more than num_multistarts and inside / on / outside the box, scripted draws; non-trivial = "
                    "at least one iteration ran with >= 2 members (DE, Adam) or >= 2 inner runs (multistart); distinct by hash of the canonical input",
-              samples=[dict(kind=i["kind"], input=i, impl_output={k: v for k, v in o.items() if k != "rec"}) for i, o in meta[:3]],
+              samples=[dict(kind=i["kind"], input=i, impl_output={k: v for k, v in o.items() if k != "rec"}) for i, o in meta[:2]] + sc["samples"],
               distribution=dist, disagreements=dis)
+
+
+SC_HEADER = ("From Coq Require Import List QArith Bool.\nFrom LV Require Import Model.Restrict Model.ScipyCons Model.ScipyConsCorr.\n"
+             "Open Scope Q_scope.")
+
+
+def gen_scipy_case(rng):
+  """A constrained box with right-hand sides of both signs, zero, tiny and large, and a dyadic evaluation point (anywhere)."""
+  dim = rng.randint(1, 4)
+  lb = [float(rng.randint(-4, 0)) for _ in range(dim)]
+  ub = [l + rng.choice([1.0, 2.0, 4.0]) for l in lb]
+  cons = []
+  for _ in range(rng.randint(0, 3) if rng.random() < 0.9 else 0):
+    w = [float(rng.choice([-2, -1, 0, 0.5, 1, 3])) for _ in range(dim)]
+    if not any(w):
+      w[rng.randrange(dim)] = 1.0
+    rhs = rng.choice([0.0, -0.0, 1.0, -1.0, -2.5, 3.25, -1e-3, 1e-3, -1e6, 1e6, float(rng.randint(-40, 40)) / 8, -float(2 ** rng.randint(-20, 20))])
+    cons.append(w + [rhs])
+  x = [dy(rng, l - 2, u + 2) for l, u in zip(lb, ub)]
+  return dict(kind="scipycons", lb=lb, ub=ub, cons=cons, x=x)
+
+
+def run_scipy_case(inp):
+  """The real get_constraints_for_scipy() of a domain carrying these constraints (set directly: the feasibility assertion of
+  set_constraint_list is about the Chebyshev centre, C08, not about the functions built here)."""
+  L = _lib()
+  dom = L.CD(numpy.array([[l, u] for l, u in zip(inp["lb"], inp["ub"])], dtype=float))
+  if inp["cons"]:
+    dom._constraint_list = [dict(weights=numpy.array(c[:-1], dtype=float), rhs=float(c[-1])) for c in inp["cons"]]
+    dom._halfspaces = dom.convert_func_list_to_halfspaces()
+  cs = dom.get_constraints_for_scipy()
+  x = numpy.array(inp["x"], dtype=float)
+  if any(c["type"] != "ineq" for c in cs):
+    raise C.TieBroken("get_constraints_for_scipy produced a constraint that is not of type 'ineq'")
+  return dict(funs=[float(c["fun"](x)) for c in cs], jacs=[[float(v) for v in numpy.asarray(c["jac"](x), dtype=float).ravel()] for c in cs])
+
+
+def scipy_cons_correspondence(ctx):
+  cases, meta, seen, dist, dis = [], [], set(), {}, []
+  for _ in range(ctx.n(300, 4000)):
+    inp = gen_scipy_case(ctx.rng)
+    try:
+      out = run_scipy_case(inp)
+    except C.TieBroken:
+      raise
+    except Exception as e:
+      dis.append(dict(what=f"C07 scipy constraints: implementation raised {type(e).__name__}: {e}", kind="scipycons", input=inp, observed=repr(e)))
+      continue
+    dom = f"(Dom {C.listlit([f'({C.qlit(l)}, {C.qlit(u)})' for l, u in zip(inp['lb'], inp['ub'])])} " + \
+          C.listlit([f"({qpt(c[:-1])}, {C.qlit(c[-1])})" for c in inp["cons"]]) + ")"
+    cases.append(f"mkcase {dom} {qpt(inp['x'])} {C.listlit(out['funs'], C.qlit)} {C.listlit(out['jacs'], qpt)}")
+    meta.append((inp, out))
+    for c in inp["cons"]:
+      t = "rhs>0" if c[-1] > 0 else "rhs<0" if c[-1] < 0 else "rhs=0"
+      dist["scipycons:" + t] = dist.get("scipycons:" + t, 0) + 1
+    if not inp["cons"]:
+      dist["scipycons:unconstrained"] = dist.get("scipycons:unconstrained", 0) + 1
+    seen.add(C.canon_hash(inp) if inp["cons"] else "none")
+  bad = C.run_cases("C07sc", SC_HEADER, "case", "check", cases, shard=150)
+  for i in bad:
+    inp, out = meta[i]
+    dis.append(dict(what=f"C07 correspondence (scipy constraints) case {i}: fun / jac of get_constraints_for_scipy differ from Model.ScipyCons",
+                    kind="scipycons", input=inp, observed=out))
+  return dict(evaluations=len(cases), distinct=len(seen), distribution=dist, disagreements=dis,
+              samples=[dict(kind="scipycons", input=i, impl_output=o) for i, o in meta[:1]])
 
 
 def nontrivial(inp, out):
@@ -673,15 +743,58 @@ def oracle_scipy(inp):
       return fail("values-do-not-match-reevaluation", "a reported value differs from re-evaluation at the end point",
                   float(res.function_values[i]), smooth_af(coef, e))
   if inp["slsqp"] and cons:
-    for s, e in zip(res.starting_points, res.ending_points):
-      if in_domain(list(s), lb, ub, [], cons, 0.0) and not in_domain(list(e), lb, ub, [], cons, 1e-6) and numpy.all(numpy.isfinite(e)):
-        pass   # SciPy contract (DESIGN C07 'Not proved'): such an end point is recorded as a failed run by the wrapper; checked next
+    # clause (h): a single constrained SLSQP run started inside the domain ends inside it.  The library's part is the tightened
+    # inequality (Props/C07_scipy.v); SLSQP's part is a feasibility error far below the margin.  Tolerance: 1e-11 of the magnitudes
+    # involved (the margin is 1e-8 |rhs|; at rhs = 0 there is no margin and SLSQP ends ~1e-15 outside on the unchanged tree).
+    for s in res.starting_points:
+      if not in_domain(list(s), lb, ub, [], cons, 0.0):
+        continue
+      single = L.opt.SLSQPOptimizer(dom, Obj())
+      single.objective_function.current_point = numpy.array(s, dtype=float)
+      single.optimize()
+      r = single.optimization_results
+      e = numpy.asarray(r.x, dtype=float)
+      if not r.success or not numpy.all(numpy.isfinite(e)):
+        continue
+      for c in cons:
+        mag = sum(abs(w * x) for w, x in zip(c[:-1], e)) + abs(c[-1]) + 1e-300
+        slack = sum(w * x for w, x in zip(c[:-1], e)) - c[-1]
+        if slack < -1e-11 * mag:
+          return fail("slsqp-run-from-inside-ends-outside", "a successful single SLSQP run started inside the domain ended outside a linear constraint",
+                      dict(start=[float(x) for x in s], end=[float(x) for x in e], constraint=c, slack=slack), "w . x >= rhs (to 1e-11 of the magnitudes)")
+      if any(x < l - 1e-11 * (abs(l) + 1) or x > u + 1e-11 * (abs(u) + 1) for x, l, u in zip(e, lb, ub)):
+        return fail("slsqp-run-from-inside-ends-outside-box", "a successful single SLSQP run started inside the domain ended outside the box",
+                    dict(start=[float(x) for x in s], end=[float(x) for x in e]), "lb <= x <= ub")
   # successes are exactly the acceptable end points whose run reported success; the result is the best of them
+  return None
+
+
+def oracle_scipycons(inp):
+  """Independent statement for the SciPy constraint functions: the inequality fun(x) >= 0 is never looser than w . x >= rhs,
+  i.e. fun(x) <= w . x - rhs (exact rational arithmetic, 1e-15 of the magnitudes for the rounding of the library's doubles)."""
+  out = run_scipy_case(inp)
+  x = [fr(v) for v in inp["x"]]
+  for c, f, j in zip(inp["cons"], out["funs"], out["jacs"]):
+    w, rhs = [fr(v) for v in c[:-1]], fr(c[-1])
+    slack = sum(a * b for a, b in zip(w, x)) - rhs
+    mag = sum(abs(a * b) for a, b in zip(w, x)) + abs(rhs) + 1
+    if fr(f) > slack + mag / 10 ** 15:
+      return dict(signature="C07:scipycons:constraint-loosened", what="the inequality handed to SciPy is looser than the user's constraint",
+                  input=inp, observed=dict(fun=f, true_slack=float(slack), constraint=c), expected="fun(x) <= w . x - rhs",
+                  oracle="exact rational re-evaluation")
+    if [fr(v) for v in j] != w:
+      return dict(signature="C07:scipycons:jacobian", what="the Jacobian handed to SciPy is not the weight vector", input=inp,
+                  observed=j, expected=c[:-1], oracle="direct comparison")
+  if len(out["funs"]) != len(inp["cons"]):
+    return dict(signature="C07:scipycons:count", what="number of SciPy constraints differs from the number of user constraints", input=inp,
+                observed=len(out["funs"]), expected=len(inp["cons"]), oracle="direct comparison")
   return None
 
 
 def oracle(inp):
   try:
+    if inp["kind"] == "scipycons":
+      return oracle_scipycons(inp)
     if inp["kind"] == "ms":
       if "table" in inp:
         return oracle_ms_scripted(inp)
@@ -837,6 +950,9 @@ def search(ctx, hints, broken):
     inp = gen_case(rng)
     n += 1
     add(oracle(inp))
+  for _ in range(ctx.n(200, 3000)):
+    n += 1
+    add(oracle(gen_scipy_case(rng)))
   for _ in range(ctx.n(120, 2500) * (2 if broken else 1)):
     inp = gen_search(rng)
     n += 1
